@@ -291,7 +291,26 @@ def _check(case):
     return check_model(system) or None
 
 
+def _pages_cases(tier, seed):
+    yield {'privacy': 0, 'project': 'two_roots', 'rules': ['HIDDEN:beta', 'HIDDEN:gamma']}
+    yield {'privacy': 0, 'project': 'two_roots', 'rules': []}
+    yield {'privacy': 0, 'project': 'kitchen', 'options': 4}
+
+
+def _pages_check(case):
+    """on disk: two different pages never share a file (no page is a link to another one unless the project has a single root, whose page
+    is index.html), every page object has its file"""
+    from replay import c12
+    fails = c12.check_site(dict(case), 'C11') or []
+    if isinstance(fails, dict):
+        fails = [fails]
+    return [f for f in fails if str(f.get('class', '')).startswith(('unexpected-symlink', 'dead-file', 'abort', 'missing-page'))
+            and not (f.get('displaced_duplicate') or f.get('summary_clash'))] or None
+
+
 HARNESS = {
+    'pydoctor/templatewriter/writer.py:TemplateWriter.writeSummaryPages': {'cases': _pages_cases, 'check': _pages_check,
+        'bound': 'three real runs (several roots with all but one hidden, several roots, the kitchen-sink project): the written files'},
     f'{M}:System.addObject': {'cases': _cases, 'check': _check,
         'covers': [f'{M}:System.handleDuplicate', f'{M}:System._remove', f'{M}:Documentable.reparent', f'{M}:Documentable.fullName',
                    f'{M}:Function.setup', f'{M}:defaultPostProcess', f'{M}:Documentable._handle_reparenting_pre',
